@@ -32,6 +32,13 @@ func c14Num(t *rapid.T, big_ bool) *big.Rat {
 		return big.NewRat(int64(rapid.IntRange(-9, 9).Draw(t, "i")), 4) // quarters
 	case 2:
 		return big.NewRat(int64(gen.Pick(t, "edge", []int{0, 127, 128, -128, -129, 255, 256, 32767, 32768, 65535, 65536, 1 << 20})), 1)
+	case 3:
+		// fine dyadic fractions: exact in float32 (24-bit significand) and in
+		// every other carrier, but with 10 to 20 significant decimal digits
+		// (1 + 2^-10 = 1.0009765625), so that a conversion through the
+		// shortest float text changes the value
+		e := rapid.IntRange(5, 20).Draw(t, "dyadexp")
+		return big.NewRat(int64(2*rapid.IntRange(-2000, 2000).Draw(t, "dyadnum")+1), int64(1)<<uint(e))
 	}
 	return big.NewRat(int64(rapid.IntRange(-4, 12).Draw(t, "i")), 1)
 }
